@@ -18,10 +18,12 @@ Definition osg_eqb (a : option sgraph) (b : sgraph) : bool :=
   match a with Some x => sgraph_eqb x b | None => false end.
 
 (* [validator model = library verdict; reader model = library read; spec decoding = library read; spec decoding = intended] *)
-(* the key-level checks: [raw keys = the hierarchy of the API dump; the raw keys hold the intended graph as the specification lays it out] *)
+(* the key-level checks: [raw keys = the hierarchy of the API dump; the raw keys hold the intended graph as the specification lays it
+   out; the dumped hierarchy is well-formed in the sense of the round-trip theorem (C02_keys_roundtrip_tree)] *)
 Definition diag_keys (root : znode) (intended : option sgraph) (f : fmt) (raw : kstore) (gv : option string) : list bool :=
   [ tie f raw gv (Some root);
-    match intended with Some ex => spec_keys_ok f raw gv ex | None => true end ].
+    match intended with Some ex => spec_keys_ok f raw gv ex | None => true end;
+    wf_tree root ].
 Definition diag (c : input * obs) : list bool :=
   match c with
   | (IStore root intended, OStore valid libread) =>
